@@ -255,6 +255,9 @@ func (r *recResource) FuncFor(ctx context.Context, sym string) (resource.EntryFu
 		}
 		d := alts[i%len(alts)]
 		content := d.content()
+		if d.Echo {
+			content = string(input)
+		}
 		if r.prog.LangSens && !d.Err && len(d.Set) == 0 && content != "" {
 			if l := ctxLang(ctx); l != "" {
 				content += "~" + l // language-dependent content, as a translated symbol would be
@@ -742,6 +745,10 @@ func genProgram(rng *rand.Rand, name string) *Program {
 					r.Content = "z"
 				}
 			}
+			if echoFunctions && rng.Intn(10) == 0 {
+				r.Echo = true // stores the client's input (any accepted bytes)
+				r.Len, r.Id, r.Content = 0, "", ""
+			}
 			switch rng.Intn(12) {
 			case 0:
 				r.Err = true
@@ -923,10 +930,18 @@ func genProgram(rng *rand.Rand, name string) *Program {
 	return p
 }
 
+// VERIF_ECHO=1 (set by the C08 check only): generated applications have functions that store the client's input as it is, and
+// the junk inputs include accepted inputs that are not valid UTF-8
+var echoFunctions = os.Getenv("VERIF_ECHO") == "1"
+
 var junkInputs = []string{"", " ", "\x00", "\xff\xfe", "*", "_", "<", ">", "+", "+1", "-1", "é", strings.Repeat("1", 255), strings.Repeat("1", 256), strings.Repeat("x", 300), "1 or 1=1", "\n1"}
+var junkNonUtf8 = []string{"1\xff", "bob\xc3", "a\x00b", "7\xf0\x9f", "x\xed\xa0\x80"}
 
 func pickInput(rng *rand.Rand, p *Program) string {
 	if rng.Intn(8) == 0 {
+		if echoFunctions && rng.Intn(3) == 0 {
+			return junkNonUtf8[rng.Intn(len(junkNonUtf8))]
+		}
 		return junkInputs[rng.Intn(len(junkInputs))]
 	}
 	return p.Inputs[rng.Intn(len(p.Inputs))]
@@ -986,6 +1001,22 @@ func cmdViseRandom(args []string) error {
 	return nil
 }
 
+// decIn undoes enc for inputs read from a history file.
+func decIn(s string) string {
+	if strings.HasPrefix(s, "hex:") {
+		if b, err := hex.DecodeString(s[4:]); err == nil {
+			return string(b)
+		}
+	}
+	return s
+}
+
+func (h *history) decode() {
+	for i := range h.Inputs {
+		h.Inputs[i] = decIn(h.Inputs[i])
+	}
+}
+
 type history struct {
 	Inputs []string `json:"inputs"`
 	Picks  [][]int  `json:"picks"` // per request: alternative index (0-based) of each external call, in call order
@@ -1017,6 +1048,7 @@ func cmdViseRun(args []string) error {
 		if err := json.Unmarshal(b, &h); err != nil {
 			return err
 		}
+		h.decode()
 		mode := args[3]
 		if h.Mode != "" {
 			mode = h.Mode
